@@ -1013,3 +1013,73 @@ theorem fwdLegendreR_eq : @fwdLegendreR K _ _ _ = @fwdLegendre K _ _ _ := by
   simp [fwdLegendreR, fwdLegendre, vecMatR_eq]
 
 end Dino.SHEquiv
+
+/-! ### masks and axes -/
+namespace Dino.SHEquiv
+open Dino.SH
+
+theorem zipIdx_map_congr {α β : Type} (l : List α) (k : Nat) (f g : α × Nat → β)
+    (h : ∀ a i, k ≤ i → i < k + l.length → f (a, i) = g (a, i)) :
+    (List.zipIdx l k).map f = (List.zipIdx l k).map g := by
+  apply List.map_congr_left
+  rintro ⟨a, i⟩ hai
+  have := List.mem_zipIdx hai
+  exact h a i this.1 this.2.1
+
+theorem zipIdx_map_fst' {α β : Type} (l : List α) (k : Nat) (g : α → β) :
+    (List.zipIdx l k).map (fun ai => g ai.1) = l.map g := by
+  have : l.map g = ((List.zipIdx l k).map Prod.fst).map g := by rw [List.zipIdx_map_fst]
+  rw [this, List.map_map]; rfl
+
+/-- the `m` values of the modal rows -/
+def mTail (M : Nat) : List Int :=
+  (List.range (M - 1)).flatMap fun j => [((j + 1 : Nat) : Int), -((j + 1 : Nat) : Int)]
+
+theorem mTail_length (M : Nat) : (mTail M).length = 2 * (M - 1) := by
+  unfold mTail
+  have : ∀ l : List Nat, (l.flatMap fun j => [((j + 1 : Nat) : Int), -((j + 1 : Nat) : Int)]).length
+      = 2 * l.length := by
+    intro l
+    induction l with
+    | nil => simp
+    | cons a t ih => simp only [List.flatMap_cons, List.length_append, ih]; simp; omega
+  rw [this]; simp
+
+theorem realMvals_eq (M : Nat) : realMvals M = 0 :: mTail M := rfl
+theorem fastMvals_eq (M pr : Nat) : fastMvals M pr = (0 :: 0 :: mTail M) ++ List.replicate pr 0 := rfl
+
+/-- one row of the fast mask -/
+def fastRow (M L pc : Nat) (m : Int) (i : Nat) : List Bool :=
+  (List.zipIdx (lvals L pc)).map fun (l, j) =>
+    decide (m.natAbs ≤ l) && decide (i ≠ 1) && decide (i < 2 * M) && decide (j < L)
+
+def realRow (L : Nat) (m : Int) : List Bool := (lvals L 0).map fun l => decide (m.natAbs ≤ l)
+
+theorem fastRow_inside (M L pc : Nat) (m : Int) (i : Nat) (h1 : i ≠ 1) (h2 : i < 2 * M) :
+    fastRow M L pc m i = realRow L m ++ List.replicate pc false := by
+  unfold fastRow realRow lvals
+  rw [List.zipIdx_append, List.map_append]
+  congr 1
+  · rw [zipIdx_map_congr _ 0 _ (fun ai => decide (m.natAbs ≤ ai.1))]
+    · rw [zipIdx_map_fst' _ _ (fun l => decide (m.natAbs ≤ l))]; simp
+    · intro a j _ hj
+      simp at hj
+      simp [h1, h2, hj]
+  · rw [zipIdx_map_congr _ _ _ (fun _ => false)]
+    · simp
+    · intro a j hj _
+      simp at hj
+      simp; omega
+
+theorem fastRow_outside (M L pc : Nat) (m : Int) (i : Nat) (h : i = 1 ∨ 2 * M ≤ i) :
+    fastRow M L pc m i = List.replicate (L + pc) false := by
+  unfold fastRow
+  rw [zipIdx_map_congr _ 0 _ (fun _ => false)]
+  · simp [lvals]
+  · intro a j _ _
+    rcases h with h | h
+    · simp [h]
+    · have : ¬ i < 2 * M := by omega
+      simp [this]
+
+end Dino.SHEquiv
